@@ -745,7 +745,9 @@ impl Primitive {
                 }
             }
             Object(o) => write!(f, "{o}"),
-            Optional(Some(primitive)) => write!(f, "{primitive}"),
+            // (a present optional prints like the value it holds, at the depth it stands at: a
+            // string inside a list keeps its quotes)
+            Optional(Some(primitive)) => primitive.fmt_recursive(f, depth),
             Optional(None) => write!(f, "nil"),
             Map(map) => {
                 write!(f, "{{")?;
